@@ -4,5 +4,6 @@ namespace Gribi.FactsOk
 open Gribi.Facts
 
 theorem facts_lockOrderAcyclic : lockOrderAcyclic = true := by decide
+theorem facts_noReentrantLock : noReentrantLock = true := by decide
 
 end Gribi.FactsOk
